@@ -253,17 +253,30 @@ func RunConc(c ConcCase) harn.Result {
 	}
 	done := make(chan struct{})
 	go func() { wg.Wait(); close(done) }()
+	// a stall is "no call anywhere completes for stallBound", not "the whole run takes
+	// long": on a loaded machine thousands of calls under the race detector may
+	// legitimately need more than a few seconds in total
 	stalled := false
-	select {
-	case <-done:
-	case <-time.After(stallBound):
-		stalled = true
+	last, lastChange := atomic.LoadInt64(&ms.calls), time.Now()
+wait:
+	for {
+		select {
+		case <-done:
+			break wait
+		case <-time.After(50 * time.Millisecond):
+			if n := atomic.LoadInt64(&ms.calls); n != last {
+				last, lastChange = n, time.Now()
+			} else if time.Since(lastChange) > stallBound {
+				stalled = true
+				break wait
+			}
+		}
 	}
 	res := harn.Result{NonTrivial: true}
 	if c.Probe {
 		res.Classes = append(res.Classes, "d14_probe")
 		if stalled {
-			return harn.Fail("%d concurrent callers x %d calls over a zero-buffer connection: calls stalled for more than %v (client dispatch loop and server loops block one another)", c.Callers, c.Each, stallBound)
+			return harn.Fail("%d concurrent callers x %d calls over a zero-buffer connection: no call completed for %v (client dispatch loop and server loops block one another)", c.Callers, c.Each, stallBound)
 		}
 		mu.Lock()
 		defer mu.Unlock()
@@ -273,7 +286,7 @@ func RunConc(c ConcCase) harn.Result {
 		return res
 	}
 	if stalled {
-		return harn.Fail("%d concurrent callers x %d calls (rendezvous=%v): not all calls completed within %v (%d session calls served)", c.Callers, c.Each, c.Rendezvous, stallBound, atomic.LoadInt64(&ms.calls))
+		return harn.Fail("%d concurrent callers x %d calls (rendezvous=%v): no call completed for %v (%d session calls served so far)", c.Callers, c.Each, c.Rendezvous, stallBound, atomic.LoadInt64(&ms.calls))
 	}
 	mu.Lock()
 	defer mu.Unlock()
